@@ -414,6 +414,9 @@ class SpliceInterp:
                         elif k == "args":
                             self.sink("rebuilt node args", s, v)
                         elif k == "kwargs":
+                            # the keys of a node's kwargs are parameter names, not ids (REF-KWNAME): only the references are judged
+                            if v is not None and v[0] == "map" and not (v[1] is not None and v[1][0] == "empty"):
+                                v = ("map", None, v[2])
                             self.sink("rebuilt node kwargs", s, v)
                         elif k == "active":
                             self.sink("rebuilt node active", s, v)
